@@ -70,10 +70,19 @@ def cut_inside_sequence(chunks):
     return False
 
 
-def split(rng, data, p=0.45):
+def split(rng, data, p=0.45, safe=False):
+    """random cut set; safe=True: only where a UTF-8 decoder is between characters"""
     if not data:
         return []
     cuts = [i for i in range(1, len(data)) if rng.random() < p]
+    if safe:
+        ok = set()
+        d = codecs.getincrementaldecoder("utf-8")("replace")
+        for i, b in enumerate(data):
+            d.decode(bytes([b]))
+            if not d.getstate()[0]:
+                ok.add(i + 1)
+        cuts = [c for c in cuts if c in ok]
     parts, last = [], 0
     for c in cuts + [len(data)]:
         parts.append(list(data[last:c]))
@@ -141,8 +150,9 @@ class C02(Prop):
         enc = force_enc or rng.choice(["utf-8"] * 7 + ["latin-1", "ascii", "ascii"])
         pty = rng.random() < 0.2
         evs = []
-        out = [["out", c] for c in split(rng, rand_bytes(rng, enc))]
-        err = [["err", c] for c in split(rng, rand_bytes(rng, enc))]
+        safe = rng.random() < 0.55          # keep the defect-free region well populated
+        out = [["out", c] for c in split(rng, rand_bytes(rng, enc), safe=safe)]
+        err = [["err", c] for c in split(rng, rand_bytes(rng, enc), safe=safe)]
         if rng.random() < 0.04 and out:
             out.insert(rng.randrange(len(out) + 1), ["out", []])      # premature empty read
         if rng.random() < 0.5:
